@@ -123,6 +123,11 @@ def initialize_flow(state: State, flow_config: FlowConfig) -> None:
     for idx, element in enumerate(flow_config.elements):
         if isinstance(element, Label):
             flow_config.element_labels.update({element["name"]: idx})
+        elif isinstance(element, (Break, Continue)) and element.label is None:
+            # Only a loop binds the target of a break/continue statement
+            raise ColangSyntaxError(
+                f"'{type(element).__name__.lower()}' outside of a loop in flow '{flow_config.id}'"
+            )
 
 
 def create_flow_instance(
